@@ -68,20 +68,67 @@ Proof. exact waiter_gets_in. Qed.
 Print Assumptions C17_never_wedges_running.
 
 (* no reachable state is stuck while a request is unfinished, and progress never depends on
-   a timer: some step other than a time-out is enabled *)
+   a timer or on a caller giving up: some step other than a time-out or a cancellation is
+   enabled *)
 Theorem C17_never_wedges_progress : forall c n sched s,
   0 < cap c -> run c (sem_init n) sched = Some s -> all_done s = false ->
-  exists i l s', l <> LTimeout /\ step c s i l = Some s'.
+  exists i l s', l <> LTimeout /\ l <> LCancel /\ step c s i l = Some s'.
 Proof. exact deadlock_free. Qed.
 Print Assumptions C17_never_wedges_progress.
 
-(* every schedule is finite (at most four steps per request), so with the theorem above
+(* apart from cancellations of callers' contexts (which can be repeated at will and change
+   nothing once a request is past the queue) every schedule is finite: at most four steps
+   per request, so with the theorem above
    every maximal run ends with all requests finished and, by C17_permits_conserved, an
    empty channel *)
 Theorem C17_schedules_terminate : forall c n sched s,
-  run c (sem_init n) sched = Some s -> Z.of_nat (length sched) <= 4 * Z.of_nat n.
+  run c (sem_init n) sched = Some s -> Z.of_nat (length (own_steps sched)) <= 4 * Z.of_nat n.
 Proof. exact schedules_terminate. Qed.
 Print Assumptions C17_schedules_terminate.
+
+(* ---- the caller's own context; limiters built WITHOUT a timeout ---- *)
+
+(* timeout = none, stated on its own: for every number of requests and every schedule,
+   including cancellation or expiry of any caller's context at any moment (before it queues,
+   while it is queued on a full limiter, afterwards):
+     - never more than [cap] requests execute beyond the limiter; permits are conserved;
+     - no request is ever turned away (no ErrTimeout), and
+     - a request is past Acquire (running, releasing or finished) only if its own send on
+       the channel occurred: Acquire returned nil => it holds / held a permit of its own;
+     - the deferred Release of a request that got through is always enabled (never blocks) *)
+Theorem C17_no_timeout : forall c n sched s,
+  0 <= cap c -> tmo c <= 0 -> run c (sem_init n) sched = Some s ->
+  running s <= cap c /\ chan s = holders s /\
+  (forall i p, nth_error (threads s) i = Some p ->
+     p <> PDone RTimeout /\ (ran p = true -> In (i, LAcquire) sched)) /\
+  (forall i o, nth_error (threads s) i = Some (PReleasing o) -> exists s', step c s i LRelease = Some s').
+Proof. exact no_timeout_contract. Qed.
+Print Assumptions C17_no_timeout.
+
+(* timeout = none: the cancellation of a caller's context is not even noticed *)
+Theorem C17_no_timeout_cancel_ignored : forall c s i s',
+  tmo c <= 0 -> step c s i LCancel = Some s' -> s' = s.
+Proof. exact cancel_ignored_without_timeout. Qed.
+Print Assumptions C17_no_timeout_cancel_ignored.
+
+(* any timeout: a cancellation never touches the channel; at most it sends a queued request
+   away with ErrTimeout, and only when a timeout is configured *)
+Theorem C17_cancel_keeps_permits : forall c s i s',
+  step c s i LCancel = Some s' ->
+  chan s' = chan s /\
+  (threads s' = threads s \/
+   (nth_error (threads s) i = Some PWaiting /\ tmo c > 0 /\ nth_error (threads s') i = Some (PDone RTimeout))).
+Proof. exact cancel_step_keeps_chan. Qed.
+Print Assumptions C17_cancel_keeps_permits.
+
+(* any timeout, from any state: nil from Acquire <=> a permit of its own.  "=>" here (a request
+   that had not got through and now has, has an acquire step in between); "<=" is
+   C17_timeout_no_permit *)
+Theorem C17_through_only_with_permit : forall c sched s s' i p p',
+  run c s sched = Some s' -> nth_error (threads s) i = Some p -> ran p = false ->
+  nth_error (threads s') i = Some p' -> ran p' = true -> In (i, LAcquire) sched.
+Proof. exact ran_then_acquired. Qed.
+Print Assumptions C17_through_only_with_permit.
 
 (* the replay function the model runner uses on logged histories accepts exactly the runs
    of the LTS (and otherwise reports the first step that is not enabled) *)
@@ -184,6 +231,26 @@ Example sem_waiter_below_cap :
             running s < cap c /\ holders s < cap c /\ nth_error (threads s) 1 = Some PWaiting /\
             all_done s = false.
 Proof. eexists. vm_compute. repeat split; try reflexivity; discriminate. Qed.
+
+(* no timeout, cap 1: request 1 queues behind request 0 and its caller's context is cancelled
+   (twice, and once more before request 2 even queues): nothing moves until the release *)
+Example sem_no_timeout_cancel_while_queued :
+  let c := {| cap := 1; tmo := 0 |} in
+  run c (sem_init 3) [ (0%nat, LEnter); (0%nat, LAcquire); (1%nat, LEnter); (1%nat, LCancel); (1%nat, LCancel);
+                       (2%nat, LCancel); (2%nat, LEnter) ]
+    = Some {| chan := 1; threads := [PRunning; PWaiting; PWaiting] |} /\
+  run c (sem_init 3) [ (0%nat, LEnter); (0%nat, LAcquire); (1%nat, LEnter); (1%nat, LCancel); (1%nat, LAcquire) ] = None /\
+  run c (sem_init 3) [ (0%nat, LEnter); (0%nat, LAcquire); (1%nat, LEnter); (1%nat, LCancel);
+                       (0%nat, LEnd OOk); (0%nat, LRelease); (1%nat, LAcquire) ]
+    = Some {| chan := 1; threads := [PDone (ROut OOk); PRunning; PIdle] |}.
+Proof. vm_compute. repeat split; reflexivity. Qed.
+
+(* with a timeout the same cancellation sends the queued request away, without a permit *)
+Example sem_timeout_cancel_while_queued :
+  let c := {| cap := 1; tmo := 20 |} in
+  run c (sem_init 2) [ (0%nat, LEnter); (0%nat, LAcquire); (1%nat, LEnter); (1%nat, LCancel) ]
+    = Some {| chan := 1; threads := [PRunning; PDone RTimeout] |}.
+Proof. vm_compute. reflexivity. Qed.
 
 (* a full channel does block: the acquire step is not enabled *)
 Example sem_full_blocks :
